@@ -292,7 +292,7 @@ class Run:
             if knobs.get('drop_p'):
                 from vsim.faults import drop_process_publications
                 drop_process_publications(self, self.rng.choice(knobs['drop_p']))
-            stagger = self.rng.choice([0.0, 1.0, 4.0])
+            stagger = self.rng.choice(knobs.get('stagger', [0.0, 1.0, 4.0]))
             for spec in w.specs:
                 w.at(w.now + self.rng.uniform(0.0, stagger), w.start_instance, spec['nick'])
             # formation + automatic distribution (actions may start before it ends)
